@@ -490,13 +490,152 @@ Ltac fin2 h ST L lo :=
     [ lia | lia | intros T'; rewrite T in T'; discriminate T'
     | unfold Phi; rewrite ST; exact P ] ].
 
-Lemma h5_next_spec h : h5_ok h -> wp (h5_next h) (next_post h).
+(* call depth 4 is enough for every state function on every input *)
+Lemma h5_call_spec d h : h5_ok h -> wp (h5_call (S (S (S (S d)))) (hstate h) h) (next_post h).
 Proof.
-  intros K. unfold h5_next, h5_depth.
+  intros K.
   assert (FR : is_quote (hstate h) = false -> hstate h <> STagNameClose ->
                forall r : bool * h5, fst r = false -> hs (snd r) = hs h -> frame h (snd r) -> h5_ok (snd r)).
   { intros Q T r _ E F. eapply ok_frame; eassumption. }
   unfold h5_ok in K. unfold Phi in *.
   destruct (hstate h) eqn:ST; cbn [st_ok] in K.
-  - fin h ST FR (SEOF_spec 7 h (Z.max 0 (tok_off h + tok_len h)) (Phi h)) (Z.max 0 (tok_off h + tok_len h)).
-(*HERE*)
+  - fin h ST FR (SEOF_spec (S (S (S d))) h (Z.max 0 (tok_off h + tok_len h)) (phi SEOF h)) (Z.max 0 (tok_off h + tok_len h)).
+  - fin h ST FR SData_spec (hpos h).
+  - fin h ST FR STagOpen_spec (hpos h - 1).
+  - fin h ST FR SEndTagOpen_spec (hpos h).
+  - fin h ST FR SMarkupDeclarationOpen_spec (hpos h).
+  - fin h ST FR SBogusComment_spec (hpos h).
+  - fin h ST FR SBogusComment2_spec (hpos h).
+  - fin h ST FR SComment_spec (hpos h).
+  - fin h ST FR SCData_spec (hpos h).
+  - fin h ST FR SDoctype_spec (hpos h).
+  - fin h ST FR STagName_spec (hpos h).
+  - fin2 h ST STagNameClose_spec (hpos h).
+  - fin h ST FR SSelfClosing_spec (hpos h - 1).
+  - fin h ST FR SBeforeAttributeName_spec (hpos h).
+  - fin h ST FR SAttributeName_spec (hpos h).
+  - fin h ST FR SAfterAttributeName_spec (hpos h).
+  - fin h ST FR SBeforeAttributeValue_spec (hpos h).
+  - fin h ST FR SAttributeValueNoQuote_spec (hpos h).
+  - fin2 h ST SQuote_spec (hpos h).
+  - fin2 h ST SQuote_spec (hpos h).
+  - fin2 h ST SQuote_spec (hpos h).
+  - fin h ST FR SAfterAttributeValueQuoted_spec (hpos h).
+Qed.
+
+(* GOAL 1: one step of the tokenizer never fails; h5_depth = 8 >= 4 *)
+Lemma h5_next_spec h : h5_ok h -> wp (h5_next h) (next_post h).
+Proof. intros K. unfold h5_next, h5_depth. apply (h5_call_spec 4 h K). Qed.
+
+(* the same statement with next_post unfolded *)
+Lemma h5_next_spec' h : h5_ok h ->
+  wp (h5_next h) (fun r => let '(more, h') := r in
+       hs h' = hs h /\ h5_ok h' /\
+       (more = true -> 0 <= tok_off h' /\ 0 <= tok_len h' /\ tok_off h' + tok_len h' <= hlen h' /\
+                       tok_off h + tok_len h <= tok_off h' /\ Phi h' + 1 <= Phi h)).
+Proof. exact (h5_next_spec h). Qed.
+
+(* the constant call-depth budget is enough: the deepest chain of direct calls has 4 frames *)
+Corollary h5_next_total h : h5_ok h -> exists r, h5_next h = Ok r /\ next_post h r.
+Proof. intros K. apply wp_inv, h5_next_spec, K. Qed.
+
+(* ---------- the token loop ---------- *)
+
+Lemma Phi_nonneg h : h5_ok h -> 0 <= Phi h.
+Proof. unfold h5_ok, Phi, phi. destruct (hstate h); cbn [st_ok credit]; lia. Qed.
+
+Definition tok_in (n : Z) (t : Z * Z * Z) : Prop :=
+  let '(_, off, ln) := t in 0 <= off /\ 0 <= ln /\ off + ln <= n.
+
+(* every token starts at or after the end of its predecessor; e is the end of the token before the list *)
+Fixpoint chain (e : Z) (l : list (Z * Z * Z)) : Prop :=
+  match l with
+  | [] => True
+  | (_, o, ln) :: l' => e <= o /\ chain (o + ln) l'
+  end.
+
+Lemma h5_tokens_loop_spec fuel : forall h acc,
+  h5_ok h -> Phi h < Z.of_nat fuel ->
+  exists l', h5_tokens_loop fuel h acc = Ok (rev acc ++ l') /\
+             Forall (tok_in (hlen h)) l' /\ chain (tok_off h + tok_len h) l' /\
+             Z.of_nat (List.length l') <= Phi h.
+Proof.
+  induction fuel as [|fuel IH]; intros h acc K F; [pose proof (Phi_nonneg h K); lia|].
+  cbn [h5_tokens_loop].
+  destruct (h5_next_total h K) as [[more h'] [E (P1 & P2 & P3)]]. rewrite E. cbn [bind].
+  destruct more.
+  - destruct (P3 eq_refl) as (A1 & A2 & A3 & A4 & A5).
+    destruct (IH h' ((tok_type h', tok_off h', tok_len h') :: acc) P2 ltac:(lia)) as [l' (L1 & L2 & L3 & L4)].
+    exists ((tok_type h', tok_off h', tok_len h') :: l'). splits.
+    + rewrite L1. cbn [rev]. rewrite <- app_assoc. reflexivity.
+    + assert (EL : hlen h' = hlen h) by (unfold hlen; rewrite P1; reflexivity).
+      rewrite EL in *. constructor; [cbn [tok_in]; lia|exact L2].
+    + cbn [chain]. split; [lia|exact L3].
+    + cbn [List.length]. lia.
+  - exists []. rewrite app_nil_r. pose proof (Phi_nonneg h K). splits; [reflexivity|constructor|exact I|cbn [List.length]; lia].
+Qed.
+
+Lemma h5_init_ok s fl : 0 <= fl <= 4 -> h5_ok (h5_init s fl) /\ Phi (h5_init s fl) <= len s + 1.
+Proof.
+  intros H. pose proof (len_nonneg s).
+  assert (C : fl = 0 \/ fl = 1 \/ fl = 2 \/ fl = 3 \/ fl = 4) by lia.
+  unfold h5_ok, Phi, phi, hlen.
+  destruct C as [->|[->|[->|[->| ->]]]]; cbn; lia.
+Qed.
+
+(* consecutive tokens do not overlap and come in input order *)
+Fixpoint tok_ordered (l : list (Z * Z * Z)) : Prop :=
+  match l with
+  | [] => True
+  | (_, o1, l1) :: l' =>
+      match l' with [] => True | (_, o2, _) :: _ => o1 + l1 <= o2 end /\ tok_ordered l'
+  end.
+
+Lemma chain_ordered : forall l e, chain e l -> tok_ordered l.
+Proof.
+  induction l as [|[[ty o] ln] l IH]; intros e C; cbn [tok_ordered]; [exact I|].
+  cbn [chain] in C. destruct C as [_ C]. split; [|exact (IH _ C)].
+  destruct l as [|[[ty2 o2] ln2] l]; [exact I|]. cbn [chain] in C. tauto.
+Qed.
+
+Lemma tok_ordered_nth : forall l i ty1 o1 l1 ty2 o2 l2,
+  tok_ordered l -> nth_error l i = Some (ty1, o1, l1) -> nth_error l (S i) = Some (ty2, o2, l2) ->
+  o1 + l1 <= o2.
+Proof.
+  induction l as [|[[ty o] ln] l IH]; intros i ty1 o1 l1 ty2 o2 l2 T N1 N2; [destruct i; discriminate|].
+  cbn [tok_ordered] in T. destruct T as [T1 T2]. destruct i as [|i].
+  - cbn [nth_error] in N1, N2. inversion N1; subst. destruct l as [|[[ty3 o3] ln3] l]; [discriminate|].
+    cbn [nth_error] in N2. inversion N2; subst. exact T1.
+  - cbn [nth_error] in N1. exact (IH i _ _ _ _ _ _ T2 N1 N2).
+Qed.
+
+(* GOAL 2, with the sharp count |s|+1 *)
+Theorem h5_tokens_spec_sharp : forall s fl, 0 <= fl <= 4 ->
+  exists l, h5_tokens s fl = Ok l /\
+    Forall (fun '(ty, off, ln) => 0 <= off /\ 0 <= ln /\ off + ln <= len s) l /\
+    tok_ordered l /\
+    (List.length l <= S (List.length s))%nat.
+Proof.
+  intros s fl H. destruct (h5_init_ok s fl H) as [K B]. unfold h5_tokens.
+  destruct (h5_tokens_loop_spec (h5_fuel s) (h5_init s fl) [] K) as [l (L1 & L2 & L3 & L4)].
+  { unfold h5_fuel. unfold len in B. lia. }
+  exists l. cbn [rev app] in L1. splits.
+  - exact L1.
+  - eapply Forall_impl; [|exact L2]. intros [[ty off] ln]. unfold tok_in, hlen, h5_init. cbn [hs]. tauto.
+  - eapply chain_ordered; exact L3.
+  - unfold len in B. lia.
+Qed.
+
+Theorem h5_tokens_spec : forall s fl, 0 <= fl <= 4 ->
+  exists l, h5_tokens s fl = Ok l /\
+    Forall (fun '(ty, off, ln) => 0 <= off /\ 0 <= ln /\ off + ln <= len s) l /\
+    tok_ordered l /\
+    (List.length l <= 2 * List.length s + 4)%nat.
+Proof.
+  intros s fl H. destruct (h5_tokens_spec_sharp s fl H) as [l (A & B & C & D)].
+  exists l. splits; try assumption. lia.
+Qed.
+
+Print Assumptions h5_next_spec.
+Print Assumptions h5_tokens_spec_sharp.
+Print Assumptions h5_tokens_spec.
